@@ -429,6 +429,21 @@ def r7_fit_tests(ctx: Context) -> None:
                         ok = True
     ctx.check(ok, "C01.R7", "Resources.get_available_quantity|sums matching entries of the current vector", loc(ga),
               "sum over _resource_vector where entry == resource", "availability is not computed from the current vector")
+    # ... and nothing else: every value the accessors return is accumulated in this call (no memo on the instance)
+    for acc in ("get_available_quantity", "get_total_quantity", "get_allocated_quantity"):
+        fn_acc = method(cls, acc)
+        stale = []
+        for r in ast.walk(fn_acc):
+            if isinstance(r, ast.Return) and r.value is not None:
+                for x in ast.walk(r.value):
+                    if isinstance(x, ast.Attribute) and is_self_attr(x) and x.attr not in ("get_total_quantity", "get_available_quantity", "get_allocated_quantity"):
+                        stale.append(norm(r.value)[:50])
+        writes = [norm(a)[:50] for a in ast.walk(fn_acc) if isinstance(a, (ast.Assign, ast.AugAssign))
+                  for t in (a.targets if isinstance(a, ast.Assign) else [a.target])
+                  if (isinstance(t, ast.Subscript) and is_self_attr(t.value)) or is_self_attr(t)]
+        ctx.check(not stale and not writes, "C01.R7", f"Resources.{acc}|computed from the ledger on every call", loc(fn_acc), "no cached value",
+                  f"Resources.{acc} returns or stores instance state ({stale + writes}): a cached quantity survives allocations made under another "
+                  "key that covers the same units (`any` vs a specific id), so the fit tests pass on units that are already taken")
     gt = method(cls, "__gt__")
     ctx.analysed_function(f"{RESOURCES}::Resources.__gt__")
     g = cfgmod.build(gt)
@@ -495,6 +510,9 @@ def run(ctx: Context) -> None:
     ctx.isolate(r5_one_worker)
     ctx.isolate(r7_fit_tests)
     ctx.isolate(c04.r3_deallocate, rule="C01.R8")
+    ctx.isolate(c04.r4_r5_copies, rule4="C01.R9", rule5="C01.R9b")
+    from . import c17
+    ctx.isolate(c17.cache_coherence, "C01.R10", ("Resources", "Worker", "WorkerPool"), "availability answers must follow every allocation", 3)
     try:
         from . import c10
         ctx.isolate(c10.r1_side_effect_free, rule="C01.R6")
